@@ -161,6 +161,11 @@ func collectTypeRefs(t Type, add func(string)) {
 		}
 	case *PtrType:
 		collectTypeRefs(t.PointeeType, add)
+	case *BindingArrayType:
+		collectTypeRefs(t.Element, add)
+		if t.Size != nil {
+			collectExprDeps(t.Size, nil, add)
+		}
 	}
 }
 
@@ -193,6 +198,9 @@ func collectExprDeps(e Expr, locals map[string]bool, add func(string)) {
 		collectExprDeps(e.Expr, locals, add)
 		collectExprDeps(e.Index, locals, add)
 	case *MemberExpr:
+		collectExprDeps(e.Expr, locals, add)
+	case *BitcastExpr:
+		collectTypeRefs(e.Type, add)
 		collectExprDeps(e.Expr, locals, add)
 	}
 }
@@ -268,6 +276,8 @@ func collectStmtDeps(s Stmt, locals map[string]bool, add func(string)) {
 	case *ExprStmt:
 		collectExprDeps(s.Expr, locals, add)
 	case *BreakIfStmt:
+		collectExprDeps(s.Condition, locals, add)
+	case *ConstAssertDecl:
 		collectExprDeps(s.Condition, locals, add)
 	}
 }
